@@ -446,7 +446,21 @@ func corrupt(r *rng.R, text string, others []string) (string, string) {
 	if len(b) == 0 {
 		return "x", "insert"
 	}
-	switch r.Intn(9) {
+	switch r.Intn(11) {
+	case 9, 10:
+		// a structural character of the formats in place of a byte, with a preference for the
+		// first non-blank byte of a line (where keys, rule names and markers start)
+		i := r.Intn(len(b))
+		if r.Chance(2, 3) {
+			for i > 0 && b[i-1] != '\n' {
+				i--
+			}
+			for i < len(b)-1 && (b[i] == ' ' || b[i] == '\t') {
+				i++
+			}
+		}
+		b[i] = rng.Pick(r, []byte{':', '#', '=', '\t', '-', '[', '{', '"', '\'', ',', '@', '%', '$', '(', '\n', '|', '>', '&', '*', '!'})
+		return string(b), "structural-char"
 	case 0:
 		i := r.Intn(len(b))
 		b[i] = byte(r.Intn(256))
@@ -498,6 +512,7 @@ var grammarAware = map[string][]string{
 		"all:\n# @grog\n",
 		"# @grog\n#\n#\nall: dep1 dep2\n\t@true\n",
 		"# @grog\n# name: x\n# @grog\n# name: y\ny:\n",
+		"# @grog\n:\n", "# @grog\n: all\n\t@true\n", "# @grog\n# name: x\n:uild: dep\n", "# @grog\n   :\n", "# @grog\n::\n", "# @grog\n\t: x\n", "# @grog\n: inputs:\n#  - a\nb:\n",
 	},
 	"BUILD.json": {
 		"", "{", "[]", "null", "{\"targets\":null}", "{\"targets\":[null]}", "{\"targets\":[{}]}", "{\"targets\":{}}", "{\"targets\":[{\"name\":1}]}",
